@@ -74,6 +74,9 @@ def all_ops(cfg):
         for i in N:
             out += [('ci', 'A', i), ('cio', 'B', i), ('dp', i)]
         out += [('cio', 'B'), ('dp',)]
+        # a query through a super proxy: fills the per-class cache of super
+        # specifications, which a later change has to drop again
+        out.append(('SQ',))
     return out
 
 
@@ -98,6 +101,9 @@ def apply(w, op):
     elif t == 'dp':
         directlyProvides(w.b, *[sp[x] for x in op[1:]])
         w.refresh()
+    elif t == 'SQ':
+        providedBy(super(w.B, w.b))
+        implementedBy(super(w.B, w.b))
     return True
 
 
@@ -191,7 +197,8 @@ def canon(w):
             deps = tuple(sorted((w.name(k) if id(k) in w.names else type(k).__name__, c)
                                 for k, c in d.items()))
         out.append((name, tuple(w.name(b) for b in s.__bases__),
-                    tuple(w.name(x) for x in s.__sro__), deps))
+                    tuple(w.name(x) for x in s.__sro__), deps,
+                    bool(getattr(s, '_super_cache', None))))
     return tuple(out)
 
 
